@@ -1,8 +1,38 @@
 import TmVerif.Model.LRXProto
+import TmVerif.Model.Events
 namespace TmVerif.DriverC02
-/-- `xrun …` : the extended runtime model's listener/error-handler trace (see Model/LRXProto.lean). -/
+open TmVerif.Proto TmVerif.LR TmVerif.LRX TmVerif.Events
+
+def showEvs (evs : List XEv) : String :=
+  " ".intercalate (evs.map fun e => match e with
+    | .node ty o e => s!"{ty}:{o}:{e}"
+    | .error o e => s!"E:{o}:{e}")
+
+/-- `events <xtables…> <input> <toks> <endOff>`: the runtime model's listener trace; for accepted
+inputs it must ALSO equal the events the specification (`Events.eventsOf`, computed on the
+derivation tree without a stack) assigns — otherwise the answer is `SPEC-MISMATCH …`. -/
 def handle (args : List String) : Option String :=
   match args with
-  | "xrun" :: rest => TmVerif.LRX.handleXRun rest
+  | "xrun" :: rest => handleXRun rest
+  | "events" :: rest => do
+    let (x, rest) ← parseXTables rest
+    match rest with
+    | [input, toks, endOff] =>
+      let input ← parseNat? input
+      let toks ← parseToks toks; let endOff ← parseNat? endOff
+      let inp : Input := { toks := toks.toArray, endOff := endOff }
+      let fuel := 80 * (toks.length + 2) * (x.t.nStates + 2) + 400
+      let (res, c) := xrun x inp input false 0 fuel
+      let shown := showXRun res c
+      match res with
+      | .accept =>
+        match eventsOf x inp input fuel with
+        | some spec =>
+          if spec == c.evs.reverse then some shown
+          else some s!"SPEC-MISMATCH model={shown} spec={showEvs spec}"
+        | none => some s!"SPEC-MISMATCH model={shown} spec=none"
+      | _ => some shown
+    | _ => none
   | _ => none
+
 end TmVerif.DriverC02
